@@ -100,6 +100,14 @@ func (x *Exec) eval(fr *frame, in ssa.Value) Val {
 	case *ssa.MakeSlice:
 		n := x.subst(x.get(fr, in.Len).(Int))
 		c := x.subst(x.get(fr, in.Cap).(Int))
+		if n.conc() && !c.conc() {
+			// symbolic capacity of a fresh slice: the range check is the
+			// obligation; the capacity itself is then taken as len (a fresh
+			// slice is unaliased, so a smaller capacity is unobservable)
+			c64 := ext(c, 64, c.S)
+			x.mustNot("(or (bvslt "+c64.term()+" "+bvc(64, n.uval())+") (bvsgt "+c64.term()+" "+bvc(64, 1<<40)+"))", "makeslice-range", "")
+			c = n
+		}
 		if !n.conc() || !c.conc() {
 			panic(unsupported{"symbolic make length at " + x.where()})
 		}
@@ -342,7 +350,14 @@ func (x *Exec) convert(v Val, from, to types.Type) Val {
 					}
 					return Int{W: w, S: s, C: uint64(f.C) & mask(w)}
 				}
-				panic(unsupported{"symbolic float to int conversion"})
+				if w == 64 && s {
+					// amd64 CVTTSD2SQ: truncation toward zero; NaN and out-of-range give MinInt64
+					lo := Flt{C: -9223372036854775808.0}.term()
+					hi := Flt{C: 9223372036854775808.0}.term()
+					inr := "(and (fp.geq " + f.T + " " + lo + ") (fp.lt " + f.T + " " + hi + "))"
+					return x.nmI(Int{W: 64, S: true, T: "(ite " + inr + " ((_ fp.to_sbv 64) RTZ " + f.T + ") #x8000000000000000)"})
+				}
+				panic(unsupported{"symbolic float to int conversion (only int64/int is modelled)"})
 			}
 		}
 		if _, ok := fu.(*types.Slice); ok && tb.Info()&types.IsString != 0 {
